@@ -23,6 +23,7 @@ import (
 	"path/filepath"
 	"sort"
 	"strings"
+	"sync/atomic"
 	"time"
 
 	ct "github.com/google/certificate-transparency-go"
@@ -200,6 +201,7 @@ type instance struct {
 	wv     *wit.WitnessVerifier
 	srv    *httptest.Server
 	logs   []*logT
+	hung   int32 // an operation did not return: the instance is abandoned (its connection is stuck)
 }
 
 func (h *harness) newInstance(mode string, logs []*logT, viaHTTP bool) *instance {
@@ -255,16 +257,22 @@ func (h *harness) newInstance(mode string, logs []*logT, viaHTTP bool) *instance
 }
 
 func (in *instance) close() {
-	if in.srv != nil {
-		in.srv.Close()
+	if atomic.LoadInt32(&in.hung) == 0 {
+		if in.srv != nil {
+			in.srv.Close()
+		}
+		in.db.Close()
 	}
-	in.db.Close()
 	if in.dbfile != "" {
 		for _, sfx := range []string{"", "-journal", "-wal", "-shm"} {
 			os.Remove(in.dbfile + sfx)
 		}
 	}
 }
+
+// hangs counts operations that never returned, over the whole run; after a few the history
+// streams stop (every further case would spend its watchdog time the same way).
+var hangs int32
 
 // ---- observations ----
 
@@ -433,6 +441,9 @@ func (o *opT) json() interface{} {
 // exec runs one operation against the real witness (direct call or over HTTP), with a
 // recover() and a watchdog.
 func (in *instance) exec(o *opT, submitted map[string]bool) *obsT {
+	if atomic.LoadInt32(&in.hung) != 0 {
+		return &obsT{kind: "panic", note: "skipped: an earlier operation on this witness never returned"}
+	}
 	type res struct{ o *obsT }
 	ch := make(chan res, 1)
 	go func() {
@@ -455,8 +466,10 @@ func (in *instance) exec(o *opT, submitted map[string]bool) *obsT {
 			in.classify(r.o, submitted)
 		}
 		return r.o
-	case <-time.After(20 * time.Second):
-		return &obsT{kind: "panic", note: "hang (watchdog 20s)"}
+	case <-time.After(8 * time.Second):
+		atomic.StoreInt32(&in.hung, 1)
+		atomic.AddInt32(&hangs, 1)
+		return &obsT{kind: "panic", note: "hang: " + o.kind + " did not return within 8s (db mode " + in.mode + ")"}
 	}
 }
 
